@@ -55,7 +55,9 @@ type checkRun struct {
 // subSlices: a property whose clauses are proved in several independent passes. A pass sees only the
 // clauses of its own tag (plus [base]/[inv]); this keeps hypotheses that are needed for one direction of
 // an equivalence (and are expensive for the solvers, e.g. nested quantifiers) out of the other direction.
-var subSlices = map[string][]string{"C17": {"C17c"}}
+// A pass whose name ends in "p" is prove-only: its clauses (preservation of store invariants, which no
+// caller needs) are obligations of the functions that carry them and are not assumed at call sites.
+var subSlices = map[string][]string{"C17": {"C17c", "C17p"}}
 
 func (cr *checkRun) passTag() string {
 	if cr.tag != "" {
